@@ -664,13 +664,24 @@ impl FromIterator<Paragraph> for Deb822 {
     fn from_iter<T: IntoIterator<Item = Paragraph>>(iter: T) -> Self {
         let mut builder = GreenNodeBuilder::new();
         builder.start_node(ROOT.into());
-        for (i, paragraph) in iter.into_iter().enumerate() {
-            if i > 0 {
+        let mut iter = iter.into_iter().peekable();
+        let mut first = true;
+        while let Some(paragraph) = iter.next() {
+            if !first {
                 builder.start_node(EMPTY_LINE.into());
                 builder.token(NEWLINE.into(), "\n");
                 builder.finish_node();
             }
-            inject(&mut builder, paragraph.0);
+            first = false;
+            if iter.peek().is_some() {
+                // another paragraph follows: the last line of this one (a parsed paragraph
+                // may lack it) needs its terminator, or the blank line would only end it
+                let copy = SyntaxNode::new_root_mut(paragraph.0.green().into_owned());
+                terminate_last_line(&copy);
+                inject(&mut builder, copy);
+            } else {
+                inject(&mut builder, paragraph.0);
+            }
         }
         builder.finish_node();
         Self(SyntaxNode::new_root_mut(builder.finish()))
